@@ -435,6 +435,17 @@ pub fn trace_case(max_conns: usize, allow_h2: bool) -> impl Strategy<Value = Tra
         let mut seen = std::collections::BTreeSet::new();
         let mut kept: Vec<Conn> = vec![];
         for (i, mut c) in conns.into_iter().enumerate() {
+            // near-collision: one connection in seven runs between the same two hosts as its predecessor with the port pair the other
+            // way round (X:p -> Y:q and X:q -> Y:p): different 4-tuples that agree in every unordered pair of fields
+            if c.gap_ms % 7 == 3 {
+                if let Some(prev) = kept.last() {
+                    c.v4 = prev.v4;
+                    c.c_addr = prev.c_addr;
+                    c.s_addr = prev.s_addr;
+                    c.c_port = prev.s_port;
+                    c.s_port = prev.c_port;
+                }
+            }
             if seen.contains(&c.key()) || seen.contains(&c.rkey()) {
                 continue;
             }
